@@ -327,7 +327,7 @@ def w_tagged(arg):
 
 def run(out, drv, info):
     quick = out.tier == 'quick'
-    n_repo, n_tag = (48, 40) if quick else (400, 300)
+    n_repo, n_tag = (120, 80) if quick else (400, 300)
     out.rule = ('case = repository (encrypted?, cipher × key size, hash, (min,max), 1–2 snapshots of 1–3 files incl. empty files and shared blocks) × corruption of the objects '
                 'a restore-by-name of the target snapshot needs or may meet: flip bit (nonce / body / tag / JSON / base64 regions), truncate (0, 1, 11, 12, 27, 28, half, '
                 'len-1, len), extend (1 / 16 bytes), delete, swap (chunk↔chunk, chunk↔snapshot, snapshot↔snapshot), replay under another name (existing location, made-up '
